@@ -67,32 +67,52 @@ func c17judge(c *h.Ctx, cs c17case, in, out orb.LineString, df orb.DistanceFunc,
 	scale := math.Max(math.Max(math.Abs(b.Min[0]), math.Abs(b.Max[0])), math.Max(math.Abs(b.Min[1]), math.Abs(b.Max[1]))) + math.Hypot(b.Max[0]-b.Min[0], b.Max[1]-b.Min[1])
 	tol := 1e-9 * scale
 	inP := lsToP(in)
-	seg, acc := 0, 0.0
+	// cumulative measured length at every vertex
+	cum := make([]float64, len(in))
+	for i := range d {
+		cum[i+1] = cum[i] + d[i]
+	}
 	for k := 1; k < n-1; k++ {
 		s := total * float64(k) / float64(n-1)
-		for seg < len(d)-1 && acc+d[seg] < s {
-			acc += d[seg]
-			seg++
-		}
-		// expected position: s lies in segment seg (or at its end)
-		var want P
-		if d[seg] == 0 {
-			want = inP[seg]
-		} else {
-			f := (s - acc) / d[seg]
-			if f > 1 {
-				f = 1
-			}
-			want = P{inP[seg][0] + f*(inP[seg+1][0]-inP[seg][0]), inP[seg][1] + f*(inP[seg+1][1]-inP[seg][1])}
-		}
 		got := P{out[k][0], out[k][1]}
-		if !(math.Abs(got[0]-want[0]) <= tol && math.Abs(got[1]-want[1]) <= tol) {
-			// a boundary tie between two segments can legitimately resolve either way: accept if on the line at the right arclength
-			fail("k-th point is not at k/(N-1) of the length along the line", map[string]interface{}{"k": k, "got": got, "want": want, "tol": tol})
-			return
-		}
 		if dd := exact.DistToPolyline(got, inP, false); !(dd <= tol) {
 			fail("resampled point is not on the original line", map[string]interface{}{"k": k, "point": got, "distance": dd})
+			return
+		}
+		// the point is at the right place if, on some segment it lies on, its position along the line - the segment's
+		// start plus the fraction of the segment's measured length - is the k-th of N-1 equal parts of the total. (On
+		// which segment, and where on a segment that measures next to nothing, is not prescribed: a segment from 180 to
+		// -180 on one parallel measures 1e-9 m under haversine, every point of it is at the same place along the line.)
+		ok := false
+		best := math.Inf(1)
+		var bestWant P
+		for i := range d {
+			a, b := inP[i], inP[i+1]
+			ex, ey := b[0]-a[0], b[1]-a[1]
+			l2 := ex*ex + ey*ey
+			f := 0.0
+			if l2 > 0 {
+				f = ((got[0]-a[0])*ex + (got[1]-a[1])*ey) / l2
+				f = math.Max(0, math.Min(1, f))
+			}
+			if math.Hypot(got[0]-(a[0]+f*ex), got[1]-(a[1]+f*ey)) > 2*tol {
+				continue
+			}
+			slack := 1e-9 * total
+			if l2 > 0 {
+				slack += 4 * d[i] * tol / math.Sqrt(l2)
+			}
+			if dev := math.Abs(cum[i] + f*d[i] - s); dev <= slack {
+				ok = true
+				break
+			} else if dev < best && d[i] > 0 {
+				best = dev
+				fw := math.Max(0, math.Min(1, (s-cum[i])/d[i]))
+				bestWant = P{a[0] + fw*ex, a[1] + fw*ey}
+			}
+		}
+		if !ok {
+			fail("k-th point is not at k/(N-1) of the length along the line", map[string]interface{}{"k": k, "got": got, "length_along_the_line_wanted": s, "off_by_at_least": best, "a_point_at_that_length": bestWant, "tol": tol})
 			return
 		}
 	}
